@@ -7,6 +7,7 @@ EXTENDS Tail
 
 CONSTANTS ReqKinds, MaxTicks,
           LeaveAfter,   \* the client does not leave before that many ticks (99: it stays)
+          MinTs,        \* smallest timestamp the world uses
           StoresPerTick \* at most that many lines become visible per second (spreads the stores over the run)
 
 VARIABLES sched, nt
@@ -21,7 +22,7 @@ SInit == Init /\ sched = <<>> /\ nt = 0
 
 SNext ==
     \/ /\ Cardinality(store) < StoresPerTick * (nt + 1)
-       /\ \E l \in Lines, t \in 0..(MaxT - 1) : StoreLine(l, t) /\ Log(E("store", l, t, ""))
+       /\ \E l \in Lines, t \in MinTs..(MaxT - 1) : StoreLine(l, t) /\ Log(E("store", l, t, ""))
     \/ nt < MaxTicks /\ Tick /\ sched' = Append(sched, E("tick", 0, 0, "")) /\ nt' = nt + 1
     \/ nt >= LeaveAfter /\ ClientClose /\ Log(E("close", 0, 0, ""))
     \/ nt >= LeaveAfter /\ ClientDrop /\ Log(E("drop", 0, 0, ""))
